@@ -38,6 +38,7 @@ ROOTS = [
     ("p2-float", ([0.0, 0.0, 0.0, 0.5, 0.5, 1.0, 1.0, 1.0], [1.0, 2.0, -1.0, 0.5, 3.0], None), None),
     ("p1-float-2d-rational", ([0.0, 0.0, 0.25, 1.0, 1.0], [(0.0, 0.0), (1.0, 2.0), (3.0, 1.0)], [1.0, 2.0, 1.0]), None),
     ("p2-refined", ([Fr(-1)] * 3 + [Fr(0), Fr(1)] + [Fr(2)] * 3, [Fr(1), Fr(1, 2), Fr(1, 2), Fr(7, 4), Fr(4)], None), None),
+    ("p2-elevated-line-2d", ([Fr(0)] * 3 + [Fr(1)] * 3, [(Fr(0), Fr(0)), (Fr(1), Fr(1, 2)), (Fr(2), Fr(1))], None), None),
     ("alias-same-knotvector", ([Fr(-1), Fr(-1), Fr(1, 3), Fr(2), Fr(2)], [Fr(2), Fr(-3), Fr(5)], None), "shared"),
     ("alias-copy", ([Fr(-1)] * 3 + [Fr(2)] * 3, [Fr(2), Fr(-3), Fr(5)], [Fr(1), Fr(2), Fr(1)]), "copy"),
 ]
@@ -356,6 +357,7 @@ def expand(res, only=None):
                 if name in ("copy", "deepcopy"):
                     r = o[1]
                     try:
+                        r.knotvector.shift(1)  # in place on the copy's own knot vector object (must not be the original's)
                         r.knot_insert([r.knotvector.knots[0] + (r.knotvector.knots[1] - r.knotvector.knots[0]) / 2])
                         r.ctrlpoints = [pt * 2 for pt in r.ctrlpoints]
                     except Exception:  # noqa: BLE001
